@@ -741,8 +741,16 @@ def run_fault(case, env):
         check(after["tip"] == [before["tip"][0] + 1, "after-fault"],
               "C01/tip-wrong-after-failed-and-repeated-commit",
               [ctx, before["tip"], after["tip"]])
+        sig = "C01/failed-commit-left-a-revision"
+        if point == "transport" and commit_point is not None and \
+                target == commit_point:
+            # open finding, own class: the write of pack-names itself failed;
+            # the pack is already in packs/ and in the collection's memory, and
+            # the next commit under the same lock lists it
+            sig = ("C01/failed-pack-names-write-publishes-the-revision-with-"
+                   "the-next-commit-under-the-same-lock")
         check(after["revs"] == sorted(before["revs"] + ["after-fault"]),
-              "C01/failed-commit-left-a-revision", [ctx, after["revs"]])
+              sig, [ctx, after["revs"]])
         check(isinstance(exc, (Injected, derr.TransportError)),
               "C01/failure-masked-by-another-error", [ctx, repr(exc)[:300]])
         new = snap_real(w.wt().branch.repository.revision_tree(followed_up))
